@@ -1260,16 +1260,30 @@ func dstCompareEdges(p *Prog, u *unpackCtx) (differ, equal []Edge, dstParam *ssa
 			// "differ" is only meaningful between two lexically normalised spellings: the entry path is built
 			// with filepath.Join, so a destination compared as the caller spelled it (dst/, dst/., a/../dst)
 			// differs from it as a string while naming the same directory
-			norm := func(v ssa.Value) bool {
-				if cleanedValue(v, map[ssa.Value]bool{}) {
-					return true
-				}
+			// ... and of the two paths themselves: Clean / Abs / EvalSymlinks of the entry path or of dst, not
+			// Dir or Base of them (a cleaned value, but of another path)
+			var norm func(v ssa.Value) bool
+			norm = func(v ssa.Value) bool {
 				switch x := cx(v).(type) {
 				case *ssa.Field:
 					return fieldOf(x) == u.PathVar
 				case *ssa.UnOp:
 					if fa, ok := x.X.(*ssa.FieldAddr); ok {
 						return fieldOf(fa) == u.PathVar
+					}
+				case *ssa.Phi:
+					for _, e := range x.Edges {
+						if !norm(e) {
+							return false
+						}
+					}
+					return true
+				}
+				if cl := callOf(cx(v)); cl != nil {
+					o := calleeObj(cl)
+					if isFunc(o, "path/filepath", "Clean") || isFunc(o, "path/filepath", "Abs") || isFunc(o, "path/filepath", "EvalSymlinks") {
+						a := cl.Common().Args[0]
+						return a == ssa.Value(dstParam) || canon(a) == ssa.Value(dstParam) || norm(a)
 					}
 				}
 				return false
